@@ -39,6 +39,11 @@ theorem chunkMsgsGen_16 (items : List (List UInt8)) : chunkMsgsGen 16 16 items =
   | nil => rfl
   | cons it its ih => simp [chunkMsgsGen, allChunkMsgs, itemMsgs, chunks16, chunksGenN_16, chunkMsgsGenFrom_16, ih]
 
+/-- `Some(Message::ReportState(_, state))`: the state reported, whatever the address. -/
+def anyReport? : Option Msg → Option State
+  | some (.reportState _ s) => some s
+  | _ => none
+
 @[simp] theorem Prog.bind_done_unit (p : Prog Unit) : (p.bind fun _ => .done ()) = p := by
   induction p with
   | done a => rfl
